@@ -719,6 +719,7 @@ func (c *Connection) readFrames(_ uint32) {
 		if releaseFrame {
 			c.opts.FramePool.Release(frame)
 		}
+		verifPoint("conn.readFrames.handled", c.connID)
 	}
 }
 
